@@ -407,8 +407,9 @@ def into_data(val: Convertible, ty: t.Optional[IntoConverter] = None, *,
     """
     inferred = ty is None
     if ty is None:
-        if isinstance(val, _ScalarType) and custom is None:
+        if isinstance(val, _ScalarType) and not isinstance(val, enum.Enum) and custom is None:
             # we can bypass the converter for scalar types
+            # (but a member of a str/int mix-in enum is serialised as its value, like any other enum member)
             return val
         ty = type(val)
 
